@@ -826,3 +826,73 @@ func ruleIntersectionSeededOnce(c *Ctx, rule string) {
 		c.undecided(rule, nil, "intersection loops of the filter", nil, "no Intersection call inside a loop found in NodeSubnetsByIPRanges / getSubnet")
 	}
 }
+
+// ---------- C10.R14 ----------
+
+// ruleUnassignCoversKeyWideEffects — clearing node / uid (reserveIP(key, key)), re-keying and freeing act on EVERY ip of the key. Where
+// such a key-wide effect follows an unassign, the unassign must have covered every ip of the key as well: its request is built
+// from the elements of a key-wide lookup (ByKeyAndIPRanges(key, nil)), not from the one record being handled — otherwise the
+// second ip of a multi-ip pod loses its node record (or is freed) while the provider still has it assigned.
+func ruleUnassignCoversKeyWideEffects(c *Ctx, rule string) {
+	n := 0
+	keyWide := []string{"(*FloatingIPPlugin).reserveIP", "(*FloatingIPPlugin).releaseIP", "(*FloatingIPPlugin).unbindDpPod", "(*FloatingIPPlugin).unbindNoneDpPod"}
+	for _, fn := range c.SrcFns {
+		if fn.Pkg == nil || !strings.HasSuffix(fn.Pkg.Pkg.Path(), spPkg) {
+			continue
+		}
+		for _, u := range callsLocal(fn, "(*FloatingIPPlugin).cloudProviderUnAssignIP") {
+			// the function in which the effect follows: fn itself, or the caller of fn when fn is an unassign helper
+			site, host := ssa.CallInstruction(u), fn
+			var effects []ssa.CallInstruction
+			for d := 0; d < 2; d++ {
+				effects = nil
+				for _, e := range callsLocal(host, keyWide...) {
+					if c.reachAfter(site, nil).has(e) {
+						effects = append(effects, e)
+					}
+				}
+				if len(effects) > 0 || len(staticSites[host]) != 1 {
+					break
+				}
+				site, host = staticSites[host][0], staticSites[host][0].Parent()
+			}
+			if len(effects) == 0 {
+				// also through every caller when the helper has several
+				for _, cs := range staticSites[fn] {
+					for _, e := range callsLocal(cs.Parent(), keyWide...) {
+						if c.reachAfter(cs, nil).has(e) {
+							effects = append(effects, e)
+						}
+					}
+				}
+			}
+			if len(effects) == 0 {
+				continue
+			}
+			n++
+			req := callArgs(u)[0]
+			fromKeyLookup := dependsOn(req, func(x ssa.Value) bool {
+				call, _ := callOf(x)
+				if call == nil || !nameMatch(calleeName(call), "IPAM).ByKeyAndIPRanges") {
+					return false
+				}
+				a := callArgs(call)
+				return len(a) == 2 && isNilConst(a[1])
+			})
+			// the looked-up list reaches the loop whole: a re-slice of it on the way drops ips of the key
+			resliced := dependsOn(req, func(x ssa.Value) bool {
+				sl, ok := x.(*ssa.Slice)
+				if !ok {
+					return false
+				}
+				st, ok := sl.X.Type().Underlying().(*types.Slice)
+				return ok && strings.HasSuffix(st.Elem().String(), "FloatingIPInfo")
+			})
+			c.ob(rule, fn, "an unassign that is followed by a key-wide effect covers every ip of the key", u, fromKeyLookup && !resliced && loopHeaderOf(u) != nil,
+				"the request of cloudProviderUnAssignIP is built from an element of ByKeyAndIPRanges(key, nil), inside the loop over that result, which is not re-sliced on the way; "+shortCallee(effects[0])+" afterwards acts on all ips of the key")
+		}
+	}
+	if n == 0 {
+		c.undecided(rule, nil, "unassign calls followed by key-wide effects", nil, "none found")
+	}
+}
